@@ -18,6 +18,7 @@ import (
 	"verifharness/c10"
 	"verifharness/c12"
 	"verifharness/c13"
+	"verifharness/c14"
 	"verifharness/c15"
 	"verifharness/c16"
 	"verifharness/c17"
@@ -47,6 +48,7 @@ var gens = map[string][]genFunc{
 	"C20": {c20.Gen},
 	"C15": {c15.Gen},
 	"C06": {c06.Gen},
+	"C14": {c14.Gen},
 	"C17": {c17.Gen},
 	"C19": {c19.Gen},
 	"C10": {c10.Gen},
@@ -61,6 +63,7 @@ var gens = map[string][]genFunc{
 var customImpl = map[string]func(){
 	"C15": c15.Impl,
 	"C06": c06.Impl,
+	"C14": c14.Impl,
 	"C17": c17.Impl,
 	"C19": c19.Impl,
 	"C10": c10.Impl,
